@@ -10,11 +10,13 @@
 EXTENDS AsconModes
 
 \* 128-bit big-endian increment with full carry, wrapping at 2^128 (C14)
-RECURSIVE IncAt(_, _)
-IncAt(n, i) == IF i = 0 THEN n
-               ELSE IF n[i] = 255 THEN IncAt([n EXCEPT ![i] = 0], i - 1)
-               ELSE [n EXCEPT ![i] = @ + 1]
-NonceInc(n) == IncAt(n, 16)
+\* ripple carry from digit i towards digit 1; top = largest digit (255 for bytes).  MC_Nonce
+\* checks this very operator exhaustively for small bases, where all values can be enumerated.
+RECURSIVE IncAt(_, _, _)
+IncAt(n, i, top) == IF i = 0 THEN n
+                    ELSE IF n[i] = top THEN IncAt([n EXCEPT ![i] = 0], i - 1, top)
+                    ELSE [n EXCEPT ![i] = @ + 1]
+NonceInc(n) == IncAt(n, 16, 255)
 RECURSIVE NonceAdd(_, _)
 NonceAdd(n, k) == IF k = 0 THEN n ELSE NonceAdd(NonceInc(n), k - 1)
 
